@@ -207,6 +207,16 @@ def run_case(case, acc):
             if err is not None or len(got) != 2 or got[0][0] is not x:
                 report('bool-differs', {'written': x, 'loaded': got, 'error': repr(err)})
         return out
+    if fam == 'mixed' and case['sep'] == ',':
+        # several hundred rows in one stream, long strings with specials
+        rows = [(i - 150, ('s,"\\' * (i % 5)) + 'x' * (i % 300), (i - 150) / 8, i % 2 == 0) for i in range(400)]
+        got, err, comp = roundtrip(rows, [int, str, float, bool])
+        acc.evals += 1
+        if err is not None or comp != 1:
+            report('many-rows-load-error', {'error': repr(err)})
+        elif compare(rows, got)[0]:
+            k, i = compare(rows, got)
+            report('many-rows-differ', {'kind': k, 'row': i})
     if fam == 'mixed':
         sep = case['sep']
         strs = ['', 'a', 'a%sb' % sep, 'q"', ' lead', 'trail ', 'e\\', '%s' % sep, '"%s"' % sep]
